@@ -51,6 +51,17 @@ def case(draw):
         for p in c["points"]:
             p["positive_floor"] = True
     n = len(c["points"])
+    if draw(st.integers(0, 5)) == 0:
+        # pond / wave-tank scale seas: centimetres high, peaked near 1 Hz, steep (dissipating) although their total
+        # variance is below 1e-4 m^2; the grid reaches 3-4 Hz
+        import math as _m
+        c["fmax"] = draw(fl(3.0, 4.0))
+        c["nf"] = max(c["nf"], 20)
+        for p in c["points"]:
+            if p["kind"] in ("jonswap", "pm"):
+                p["fp"] = draw(fl(0.9, 1.4))
+                p["hs"] = float(draw(fl(0.04, 0.08)) * W.G / (2 * _m.pi * p["fp"] ** 2))
+        c["pond_scale"] = True
     c.update({
         "dissipation": dk,
         "log_z0": [draw(fl(-12.0, -3.0)) for _ in range(n)],
@@ -143,6 +154,8 @@ def run(c):
     if c.get("dir_jitter"):
         classes.append("non_uniform_direction_grid")
     classes.append("wind_direction_convention_" + conv)
+    if c.get("pond_scale"):
+        classes.append("pond_scale_seas_peaked_near_1Hz")
     if c["nf"] == c["nd"]:
         classes.append("square_spectrum_nf_equals_nd")
 
